@@ -4,7 +4,7 @@
 //
 //	assert     x.(T) in single-value form (outside a type switch)
 //	index      x[i] / x[i:j] on a slice, string or (non-constant index) array / pointer to array
-//	panic      explicit call of the builtin panic
+//	panic      explicit call of the builtin panic; the conditions it sits under (enclosing if / case) are part of expr
 //	must       call of a Must*/must* helper
 //	nilderef   v, err := f(); v dereferenced before an unconditional `if err != nil` guard
 //	recursion  function that (directly) calls itself
@@ -168,7 +168,11 @@ func (w *walker) walkFunc(name string, recvObj types.Object, body ast.Node) {
 			switch f := unparen(x.Fun).(type) {
 			case *ast.Ident:
 				if b, ok := info.Uses[f].(*types.Builtin); ok && b.Name() == "panic" {
-					w.add(x.Pos(), name, "panic", types.ExprString(x), false)
+					expr := types.ExprString(x)
+					if g := guardPath(body, x); len(g) > 0 {
+						expr += " [" + strings.Join(g, "; ") + "]"
+					}
+					w.add(x.Pos(), name, "panic", expr, false)
 				}
 				if isMust(f.Name) {
 					w.add(x.Pos(), name, "must", types.ExprString(x), allConst(info, x.Args))
